@@ -269,8 +269,6 @@ theorem progress {cfg : Cfg} {s : State} (hr : Reachable cfg s)
     | waiting => exact absurd hp hw
     | done => exact absurd hp hd
 
-def AllDone (s : State) : Prop := ∀ l lk, s.locks l = some lk → lk.phase = .done
-
 /-- from every reachable state some finite run of lock steps finishes every request -/
 theorem can_finish {cfg : Cfg} : ∀ (n : Nat) (s : State), Reachable cfg s → mu s ≤ n →
     ∃ as s', (∀ a, a ∈ as → a.lockStep.isSome) ∧ run cfg s as = some s' ∧ AllDone s'
@@ -296,5 +294,203 @@ theorem can_finish {cfg : Cfg} : ∀ (n : Nat) (s : State), Reachable cfg s → 
       rcases List.mem_cons.mp hb with e | hb
       · subst e; simp [ha]
       · exact h1 b hb
+
+/-! ## the wait-for relation is acyclic -/
+
+/-- the holder a blocked lock waits for is itself heading for a strictly greater key -/
+theorem waitsFor_key_lt {cfg : Cfg} {s : State} (h1 : Inv1 cfg s) {a b : LockId} {lka lkb : Lock} {ka kb : Key}
+    (hw : WaitsFor cfg s a b) (hla : s.locks a = some lka) (hka : lka.nextKey = some ka)
+    (hlb : s.locks b = some lkb) (hkb : lkb.nextKey = some kb) : KLt ka kb := by
+  obtain ⟨lk, k, n, hl, _, hk, hn, ho⟩ := hw
+  rw [hla] at hl; cases hl
+  rw [hka] at hk; cases hk
+  obtain ⟨hnm, hnk⟩ := findNode_some hn
+  obtain ⟨lko, hlo, j, hj, hjk⟩ := h1.holder _ n b hnm ho
+  rw [hlb] at hlo; cases hlo
+  rw [hnk] at hjk
+  obtain ⟨hj', hjm⟩ := List.getElem?_eq_some_iff.mp hjk
+  obtain ⟨hc', hcm⟩ := List.getElem?_eq_some_iff.mp hkb
+  rw [← hjm, ← hcm]
+  exact List.pairwise_iff_getElem.mp (h1.wf _ _ hlb).sorted j lkb.acquiredCount hj' hc' hj
+
+theorem waitChain_head {cfg : Cfg} {s : State} {a b : LockId} (h : WaitChain cfg s a b) :
+    ∃ lk k, s.locks a = some lk ∧ lk.phase = .waiting ∧ lk.nextKey = some k := by
+  cases h with
+  | single hw => obtain ⟨lk, k, _, hl, hp, hk, _⟩ := hw; exact ⟨lk, k, hl, hp, hk⟩
+  | cons hw _ => obtain ⟨lk, k, _, hl, hp, hk, _⟩ := hw; exact ⟨lk, k, hl, hp, hk⟩
+
+theorem waitChain_key_lt {cfg : Cfg} {s : State} (h1 : Inv1 cfg s) {a b : LockId} (h : WaitChain cfg s a b) :
+    ∀ {lka lkb : Lock} {ka kb : Key}, s.locks a = some lka → lka.nextKey = some ka →
+      s.locks b = some lkb → lkb.nextKey = some kb → KLt ka kb := by
+  induction h with
+  | single hw => intro lka lkb ka kb hla hka hlb hkb; exact waitsFor_key_lt h1 hw hla hka hlb hkb
+  | cons hw hc ih =>
+    intro lka lkb ka kb hla hka hlb hkb
+    obtain ⟨lkm, km, hlm, _, hkm⟩ := waitChain_head hc
+    exact KLt_trans (waitsFor_key_lt h1 hw hla hka hlm hkm) (ih hlm hkm hlb hkb)
+
+theorem waitChain_irrefl {cfg : Cfg} {s : State} (h1 : Inv1 cfg s) {a : LockId} (h : WaitChain cfg s a a) : False := by
+  obtain ⟨lk, k, hl, _, hk⟩ := waitChain_head h
+  exact KLt_irrefl k (waitChain_key_lt h1 h hl hk hl hk)
+
+/-! ## FIFO per slot -/
+
+/-- a step changes a waiting list only by appending the caller or by removing the lock it wakes up -/
+theorem eff_waiting {cfg : Cfg} {s s' : State} {o : Option LockId} (e : Eff cfg s o s') (i : Nat) :
+    (s'.slots i).waiting = (s.slots i).waiting ∨
+    (∃ l, (s'.slots i).waiting = (s.slots i).waiting ++ [l]) ∨
+    (∃ w key, (s'.slots i).waiting = (s.slots i).waiting.erase w ∧
+      (s.slots i).waiting.find? (awaits s key) = some w) := by
+  have same : ∀ (slotID : Nat) (q : List Node) (c : Int),
+      (upd s.slots slotID { queue := q, count := c, waiting := (s.slots slotID).waiting } i).waiting = (s.slots i).waiting := by
+    intro slotID q c; simp only [upd_apply]; split
+    · next e => subst e; rfl
+    · rfl
+  cases e with
+  | gen ts keys hnd => exact .inl rfl
+  | recycle j ts =>
+    left; simp only [recycleSlot, upd_apply]; split
+    · next e => subst e; rfl
+    · rfl
+  | staleRet l0 lk hl hp hst => exact .inl rfl
+  | acqNew l0 lk key slotID hl hp hst hk hs hf => exact .inl (same slotID _ _)
+  | acqStale l0 lk key slotID n hl hp hst hk hs hf hgt => exact .inl rfl
+  | acqFree l0 lk key slotID n hl hp hst hk hs hf hle hh => exact .inl (same slotID _ _)
+  | acqLocked l0 lk key slotID n o hl hp hst hk hs hf hle hh =>
+    simp only [upd_apply]; split
+    · next e => subst e; exact .inr (.inl ⟨l0, rfl⟩)
+    · exact .inl rfl
+  | unlock l0 lk c hl hp => exact .inl rfl
+  | relNone l0 lk key slotID n hl hp hc hk hs hf hh hw => exact .inl (same slotID _ _)
+  | relStale l0 lk key slotID n w lkw hl hp hc hk hs hf hh hw hlw hgt =>
+    simp only [upd_apply]; split
+    · next e => subst e; exact .inr (.inr ⟨w, key, rfl, hw⟩)
+    · exact .inl rfl
+  | relWake l0 lk key slotID n w lkw hl hp hc hk hs hf hh hw hlw hle =>
+    simp only [upd_apply]; split
+    · next e => subst e; exact .inr (.inr ⟨w, key, rfl, hw⟩)
+    · exact .inl rfl
+
+/-- the lock removed from a waiting list is the first one (in arrival order) blocked on the released key -/
+theorem first_in_line {s : State} {ws : List LockId} (hnd : ws.Nodup) {key : Key} {w : LockId}
+    (hw : ws.find? (awaits s key) = some w) {i j : Nat} {a : LockId}
+    (hi : ws[i]? = some a) (hj : ws[j]? = some w) (hij : i < j) : awaits s key a = false := by
+  obtain ⟨_, i0, h0, e0, hbefore⟩ := List.find?_eq_some_iff_getElem.mp hw
+  obtain ⟨hj', ej⟩ := List.getElem?_eq_some_iff.mp hj
+  have : i0 = j := (List.getElem_inj hnd).mp (e0.trans ej.symm)
+  subst this
+  obtain ⟨hi', ei⟩ := List.getElem?_eq_some_iff.mp hi
+  have := hbefore i hij
+  rw [ei] at this
+  simpa using this
+
+/-! ## progress inside a separated set of locks -/
+
+def awaitedOn (S : LockId → Bool) (s : State) : List Key :=
+  (List.range s.nlocks).filterMap fun l =>
+    match s.locks l with
+    | some lk => if S l = true ∧ lk.phase = .waiting then lk.nextKey else none
+    | none => none
+
+theorem mem_awaitedOn {cfg : Cfg} {s : State} (h1 : Inv1 cfg s) {S : LockId → Bool} {k : Key} :
+    k ∈ awaitedOn S s ↔ ∃ l lk, S l = true ∧ s.locks l = some lk ∧ lk.phase = .waiting ∧ lk.nextKey = some k := by
+  simp only [awaitedOn, List.mem_filterMap, List.mem_range]
+  constructor
+  · rintro ⟨l, _, h⟩
+    cases hl : s.locks l with
+    | none => simp [hl] at h
+    | some lk =>
+      simp only [hl] at h
+      split at h
+      · next hp => exact ⟨l, lk, hp.1, hl, hp.2, h⟩
+      · cases h
+  · rintro ⟨l, lk, hS, hl, hp, hk⟩
+    exact ⟨l, h1.fresh _ _ hl, by simp [hl, hp, hk, hS]⟩
+
+/-- not all unfinished locks of a separated set are blocked -/
+theorem not_all_waiting_on {cfg : Cfg} {s : State} (h1 : Inv1 cfg s) (h2 : Inv2 cfg s) {S : LockId → Bool}
+    (hsep : Sep s S) {l0 : LockId} {lk0 : Lock} (hS0 : S l0 = true) (hl0 : s.locks l0 = some lk0)
+    (hnd : lk0.phase ≠ .done)
+    (hall : ∀ l lk, S l = true → s.locks l = some lk → lk.phase = .done ∨ lk.phase = .waiting) : False := by
+  have hp0 : lk0.phase = .waiting := (hall _ _ hS0 hl0).resolve_left hnd
+  have hlt0 : lk0.acquiredCount < lk0.keys.length := by
+    have := h1.phase _ _ hl0; unfold PhaseOK at this; rw [hp0] at this; exact this.2
+  have hne : awaitedOn S s ≠ [] := by
+    intro e
+    have : lk0.keys[lk0.acquiredCount] ∈ awaitedOn S s :=
+      (mem_awaitedOn h1).mpr ⟨l0, lk0, hS0, hl0, hp0, List.getElem?_eq_getElem hlt0⟩
+    rw [e] at this; cases this
+  obtain ⟨m, hm, hmax⟩ := exists_maximal _ hne
+  obtain ⟨l, lk, hSl, hl, hp, hk⟩ := (mem_awaitedOn h1).mp hm
+  have hmk : m ∈ lk.keys := List.mem_of_getElem? hk
+  rcases h2.wake l lk m hl hp hk with ⟨n, o, hn, ho⟩ | ⟨w, lkw, hw, hpw, _, hkw, _⟩
+  · obtain ⟨hnm, hnk⟩ := findNode_some hn
+    obtain ⟨lko, hlo, j, hj, hjk⟩ := h1.holder _ n o hnm ho
+    rw [hnk] at hjk
+    have hSo : S o = true := by
+      rw [← hsep l o lk lko m hl hlo hmk (List.mem_of_getElem? hjk)]; exact hSl
+    have hpo : lko.phase = .waiting := by
+      rcases hall _ _ hSo hlo with hd | hw
+      · have := h1.phase _ _ hlo; unfold PhaseOK at this; rw [hd] at this; omega
+      · exact hw
+    have hlto : lko.acquiredCount < lko.keys.length := by
+      have := h1.phase _ _ hlo; unfold PhaseOK at this; rw [hpo] at this; exact this.2
+    have hin : lko.keys[lko.acquiredCount] ∈ awaitedOn S s :=
+      (mem_awaitedOn h1).mpr ⟨o, lko, hSo, hlo, hpo, List.getElem?_eq_getElem hlto⟩
+    apply hmax _ hin
+    obtain ⟨hj', hjm⟩ := List.getElem?_eq_some_iff.mp hjk
+    rw [← hjm]
+    exact List.pairwise_iff_getElem.mp (h1.wf _ _ hlo).sorted j lko.acquiredCount hj' hlto hj
+  · have hSw : S w = true := by
+      rw [← hsep l w lk lkw m hl hw hmk (List.mem_of_getElem? hkw)]; exact hSl
+    rcases hall _ _ hSw hw with hd | hw' <;> simp [hpw] at *
+
+/-- while a lock of a separated set is unfinished, a step of a lock of that set is enabled -/
+theorem progress_on {cfg : Cfg} {s : State} (hr : Reachable cfg s) {S : LockId → Bool} (hsep : Sep s S)
+    (hex : ∃ l lk, S l = true ∧ s.locks l = some lk ∧ lk.phase ≠ .done) :
+    ∃ a l s', S l = true ∧ a.lockStep = some l ∧ step cfg s a = some s' := by
+  obtain ⟨h1, h2⟩ := hr.inv12
+  obtain ⟨l0, lk0, hS0, hl0, hnd⟩ := hex
+  by_cases hall : ∀ l lk, S l = true → s.locks l = some lk → lk.phase = .done ∨ lk.phase = .waiting
+  · exact (not_all_waiting_on h1 h2 hsep hS0 hl0 hnd hall).elim
+  · have : ∃ l lk, S l = true ∧ s.locks l = some lk ∧ lk.phase ≠ .done ∧ lk.phase ≠ .waiting := by
+      apply Classical.byContradiction
+      intro hno
+      apply hall
+      intro l lk hS hl
+      apply Classical.byContradiction
+      intro hc
+      exact hno ⟨l, lk, hS, hl, fun e => hc (.inl e), fun e => hc (.inr e)⟩
+    obtain ⟨l, lk, hS, hl, hd, hw⟩ := this
+    cases hp : lk.phase with
+    | acquiring => obtain ⟨s', hs⟩ := acquire_enabled h1 hl (.inl hp); exact ⟨.acquire l, l, s', hS, rfl, hs⟩
+    | woken => obtain ⟨s', hs⟩ := acquire_enabled h1 hl (.inr hp); exact ⟨.acquire l, l, s', hS, rfl, hs⟩
+    | acquired => obtain ⟨s', hs⟩ := unlock_enabled (cfg := cfg) hl hp 0; exact ⟨.unlock l 0, l, s', hS, rfl, hs⟩
+    | releasing => obtain ⟨s', hs⟩ := release_enabled h1 h2 hl hp; exact ⟨.releaseSlot l, l, s', hS, rfl, hs⟩
+    | waiting => exact absurd hp hw
+    | done => exact absurd hp hd
+
+/-- an arrival whose keys avoid the keys of `S` (and which is not put into `S`) keeps `S` separated -/
+theorem Sep.gen {cfg : Cfg} {s : State} {S : LockId → Bool} (h : Sep s S) (h1 : Inv1 cfg s) (ts : Nat)
+    {keys : List Key} (hS : S s.nlocks = false)
+    (hdis : ∀ l lk k, S l = true → s.locks l = some lk → k ∈ keys → k ∉ lk.keys) :
+    Sep (genLock cfg s ts keys) S := by
+  have hmem : ∀ k, k ∈ sortKeys keys ↔ k ∈ keys := fun k => (List.mergeSort_perm keys Bytes.le).mem_iff
+  intro l l' lk lk' k hl hl' hk hk'
+  rcases upd_some hl with ⟨e1, e2⟩ | ⟨_, hl⟩ <;> rcases upd_some hl' with ⟨e1', e2'⟩ | ⟨_, hl'⟩
+  · rw [e1, e1']
+  · subst e2
+    have hk : k ∈ keys := (hmem k).mp hk
+    rw [e1, hS]
+    cases hS' : S l' with
+    | false => rfl
+    | true => exact absurd hk' (hdis l' lk' k hS' hl' hk)
+  · subst e2'
+    have hk' : k ∈ keys := (hmem k).mp hk'
+    rw [e1', hS]
+    cases hS' : S l with
+    | false => rfl
+    | true => exact absurd hk (hdis l lk k hS' hl hk')
+  · exact h l l' lk lk' k hl hl' hk hk'
 
 end CGV.Latch
